@@ -112,6 +112,14 @@ def outputValues (vals : List (VarValue α)) : Except Lang.ErrKind (NdArr α) :=
     (if vals.isEmpty then .ok (.vector []) else .ok (ofColumns n (vals.map (fun v => stretch n v.rows))))
   else .error .value
 
+/-- two arrays side by side (`np.hstack`) as far as the getters produce them: two 1-D arrays are concatenated, two 2-D
+    arrays of the same number of rows are joined row by row; a 1-D array next to a 2-D array is a `ValueError` -/
+def sideBySide : NdArr α → NdArr α → Except Lang.ErrKind (NdArr α)
+  | .vector u, .vector v => .ok (.vector (u ++ v))
+  | .matrix c r, .matrix c' r' =>
+    if r.length = r'.length then .ok (.matrix (c + c') (List.zipWith (· ++ ·) r r')) else .error .value
+  | _, _ => .error .value
+
 /-- `Engine.values`: input values and output values side by side.  Both getters run first (input values before output
     values).  The two arrays must have the same number of dimensions – an engine that has input variables but no output
     variables, or the other way round, raises `ValueError` – and, as 2-D arrays, the same number of rows -/
@@ -121,11 +129,22 @@ def allValues (ins outs : List (VarValue α)) : Except Lang.ErrKind (NdArr α) :
   | .ok a =>
     match outputValues outs with
     | .error k => .error k
-    | .ok b =>
-      match a, b with
-      | .vector u, .vector v => .ok (.vector (u ++ v))
-      | .matrix c r, .matrix c' r' =>
-        if r.length = r'.length then .ok (.matrix (c + c') (List.zipWith (· ++ ·) r r')) else .error .value
-      | _, _ => .error .value
+    | .ok b => sideBySide a b
 
 end Op.Engine
+
+/-! ## accessors of a `Variable` (variable.py:164-225): `drange`, `range` (the value setter is `Op.setter`) -/
+
+namespace Op
+variable {α : Type} [Field α] [LinearOrder α] [IsStrictOrderedRing α]
+
+/-- `Variable.drange`: `maximum - minimum` (IEEE: `inf - inf` is NaN) -/
+def drange (c : CascadeCfg α) : X α := X.sub c.hi c.lo
+
+/-- `Variable.range` (getter): `(minimum, maximum)` -/
+def range (c : CascadeCfg α) : X α × X α := (c.lo, c.hi)
+
+/-- `Variable.range = (lo, hi)` (setter): the minimum, then the maximum; the value held is not clipped again -/
+def setRange (c : CascadeCfg α) (p : X α × X α) : CascadeCfg α := { c with lo := p.1, hi := p.2 }
+
+end Op
